@@ -29,8 +29,29 @@ const (
 
 var ModuleName = []string{"flow", "isolation", "hotspot", "circuitbreaker", "system", "outlier"}
 
+// Strategies registered by this package (as a user would, through the Set...Generator functions) whose
+// generators decline every rule: such a rule passes the validity check, but nothing can enforce it. (The flow
+// module's generator type names an unexported type: no user outside the package can register one.)
+const (
+	DeclinedCbStrategy  = cb.Strategy(101)
+	DeclinedHotBehavior = hotspot.ControlBehavior(101)
+)
+
+func init() {
+	if err := cb.SetCircuitBreakerGenerator(DeclinedCbStrategy, func(*cb.Rule, interface{}) (cb.CircuitBreaker, error) {
+		return nil, fmt.Errorf("declined")
+	}); err != nil {
+		panic(err)
+	}
+	if err := hotspot.SetTrafficShapingGenerator(DeclinedHotBehavior, func(*hotspot.Rule, *hotspot.ParamsMetric) hotspot.TrafficShapingController {
+		return nil
+	}); err != nil {
+		panic(err)
+	}
+}
+
 // NumVariants per module (0,1 valid; others invalid).
-var NumVariants = []int{14, 5, 10, 10, 5, 7}
+var NumVariants = []int{14, 5, 11, 11, 5, 7}
 
 type RS struct {
 	M   int  `json:"m"`
@@ -225,6 +246,9 @@ func BuildHotspot(r RS) *hotspot.Rule {
 		x.Threshold, x.ControlBehavior, x.MaxQueueingTimeMs = 0, hotspot.Throttling, -1
 	case 9:
 		x.Threshold, x.DurationInSec = 0, -3
+	case 10:
+		// a user-registered behaviour whose generator declines the rule
+		x.Threshold, x.ControlBehavior = 0, DeclinedHotBehavior
 	}
 	if r.Var <= 1 {
 		switch r.Hid {
@@ -279,6 +303,9 @@ func BuildBreaker(r RS) *cb.Rule {
 	case 9:
 		// a strategy nobody registered a breaker generator for: no breaker can exist, so it must not be reported
 		x.MinRequestAmount, x.Strategy, x.Threshold = 0, cb.Strategy(7), 0
+	case 10:
+		// a user-registered strategy whose generator declines the rule (returns an error): no breaker exists
+		x.MinRequestAmount, x.Strategy, x.Threshold = 0, DeclinedCbStrategy, 0
 	}
 	if r.Var <= 1 {
 		switch r.Hid {
